@@ -191,6 +191,8 @@ impl CacheCallback for HCallbackExitEvict {
 }
 
 pub enum HCallback {
+    /// the decoy cache's callback: says nothing
+    Silent,
     Full(HCallbackFull),
     ExitOnly(HCallbackExitOnly),
     ExitEvict(HCallbackExitEvict),
@@ -199,6 +201,7 @@ impl CacheCallback for HCallback {
     type Value = Val;
     fn on_exit(&self, val: Option<Val>) {
         match self {
+            HCallback::Silent => {}
             HCallback::Full(c) => c.on_exit(val),
             HCallback::ExitOnly(c) => c.on_exit(val),
             HCallback::ExitEvict(c) => c.on_exit(val),
@@ -206,13 +209,18 @@ impl CacheCallback for HCallback {
     }
     fn on_evict(&self, item: Item<Val>) {
         match self {
-            HCallback::Full(c) => c.on_evict(item),
+            HCallback::Silent => {}
+            HCallback::Full(c) => {
+                c.on_evict(item);
+                decoy_roundtrip_from_callback();
+            }
             HCallback::ExitOnly(c) => c.on_evict(item),
             HCallback::ExitEvict(c) => c.on_evict(item),
         }
     }
     fn on_reject(&self, item: Item<Val>) {
         match self {
+            HCallback::Silent => {}
             HCallback::Full(c) => c.on_reject(item),
             HCallback::ExitOnly(c) => c.on_reject(item),
             HCallback::ExitEvict(c) => c.on_reject(item),
@@ -236,6 +244,8 @@ pub enum Res {
     Ttl(Option<u64>),
     Num(i64),
     Panic(String),
+    /// the operation's future was dropped before it completed (Op::CancelNext)
+    Cancelled,
 }
 
 #[derive(Serialize, Deserialize, Clone, Debug, Default)]
@@ -322,7 +332,55 @@ static LOG: Mutex<Vec<Ev>> = Mutex::new(Vec::new());
 /// scheduler step at which the latest event was logged (livelock detection)
 pub static LAST_LOG_STEP: std::sync::atomic::AtomicU64 = std::sync::atomic::AtomicU64::new(0);
 
+/// keys of the decoy cache (a second cache in the same process) live far away from every plan's keys
+pub const DECOY_BASE: u64 = 0x7777_0000_0000_0000;
+pub fn is_decoy_key(k: u64) -> bool {
+    (DECOY_BASE..DECOY_BASE + (1 << 20)).contains(&k)
+}
+pub static DECOY: Mutex<Option<Box<dyn Api>>> = Mutex::new(None);
+static DECOY_N: std::sync::atomic::AtomicU64 = std::sync::atomic::AtomicU64::new(0);
+thread_local! {
+    static IN_DECOY: std::cell::Cell<bool> = std::cell::Cell::new(false);
+}
+
+/// Run `f` on the decoy cache without leaving a trace in the event log.
+fn with_decoy<R>(f: impl FnOnce(&dyn Api) -> R) -> Option<R> {
+    let d = DECOY.lock().unwrap_or_else(|e| e.into_inner()).as_ref().map(|d| d.clone_box())?;
+    IN_DECOY.with(|c| c.set(true));
+    let r = f(d.as_ref());
+    IN_DECOY.with(|c| c.set(false));
+    Some(r)
+}
+
+/// From a callback of the cache under test (its processor thread): use the other cache the way
+/// a two-tier set-up would - insert, wait, read back.  wait() on the other cache is a barrier
+/// there too (C10), whichever thread calls it.
+fn decoy_roundtrip_from_callback() {
+    if LOCAL_EXEC.load(Ordering::SeqCst) || IS_ASYNC.load(Ordering::SeqCst) {
+        return; // callbacks are synchronous: only the sync flavour can wait inside one
+    }
+    let n = DECOY_N.fetch_add(1, Ordering::SeqCst);
+    if n >= 3 {
+        return;
+    }
+    let k = DECOY_BASE + 1000 + n;
+    let r = with_decoy(|d| {
+        let ins = d.insert(k, Val { id: k, key: k, size: 1 }, 1, Duration::ZERO);
+        let w = d.wait();
+        let got = d.get(k, 0).map(|x| x.0.id);
+        (ins, w, got)
+    });
+    if let Some((Ok(true), Ok(()), got)) = r {
+        if got != Some(k) {
+            log(EvKind::Note(format!("decoy-wait-barrier-failed: insert({}) true, wait() Ok, get -> {:?}", k, got)));
+        }
+    }
+}
+
 pub fn log(kind: EvKind) {
+    if IN_DECOY.with(|c| c.get()) {
+        return;
+    }
     LAST_LOG_STEP.store(rt::STEPS.load(Ordering::SeqCst), Ordering::SeqCst);
     let seq = rt::next_seq();
     let now = rt::now_ns().unwrap_or(0);
@@ -335,6 +393,16 @@ pub fn take_log() -> Vec<Ev> {
 }
 
 fn obs_sink(o: Obs) {
+    // the decoy cache's workers report through the same (global) observer: drop what is theirs
+    let decoy = match &o {
+        Obs::AddEnter { key, .. } | Obs::AddExit { key, .. } | Obs::CostUpdate { key, .. } => is_decoy_key(*key),
+        Obs::Push { keys, .. } | Obs::Applied { keys } => !keys.is_empty() && keys.iter().all(|k| is_decoy_key(*k)),
+        Obs::AddRound { .. } => rt::current_task_name().contains('#'),
+        _ => false,
+    };
+    if decoy {
+        return;
+    }
     let e = match o {
         Obs::AddEnter { key, cost, max_cost, used, key_costs, inc_est } => ObsEv::AddEnter { key, cost, max_cost, used, key_costs, inc_est },
         Obs::AddRound { room, sample } => ObsEv::AddRound { room, sample },
@@ -476,8 +544,23 @@ macro_rules! snapshot_impl {
 }
 
 pub static LOCAL_EXEC: std::sync::atomic::AtomicBool = std::sync::atomic::AtomicBool::new(false);
+pub static IS_ASYNC: std::sync::atomic::AtomicBool = std::sync::atomic::AtomicBool::new(false);
 
 /// Drive a future on the executor of this run's flavour.
+thread_local! {
+    static CANCEL_AFTER: std::cell::Cell<Option<u32>> = std::cell::Cell::new(None);
+}
+const CANCELLED: &str = "\u{1}cancelled";
+
+/// block_on for the operations that can be cancelled (remove, wait, clear of the async flavour
+/// on per-task executors): honours a pending Op::CancelNext
+pub fn bo_c<F: std::future::Future>(f: F) -> Option<F::Output> {
+    match CANCEL_AFTER.with(|c| c.take()) {
+        Some(n) if !LOCAL_EXEC.load(Ordering::SeqCst) => rt::block_on_cancel(f, n),
+        _ => Some(bo(f)),
+    }
+}
+
 pub fn bo<F: std::future::Future>(f: F) -> F::Output {
     if LOCAL_EXEC.load(Ordering::SeqCst) {
         stretto_sim_rt::local::block_on(f)
@@ -599,7 +682,10 @@ mod async_impl {
             }
         }
         fn remove(&self, k: u64) -> Result<(), String> {
-            bo(self.try_remove(&k)).map_err(|e| e.to_string())
+            match bo_c(self.try_remove(&k)) {
+                Some(r) => r.map_err(|e| e.to_string()),
+                None => Err(CANCELLED.into()),
+            }
         }
         fn get(&self, k: u64, hold: u32) -> Option<(Val, Val, u64)> {
             let r = bo(SelfTy::get(self, &k))?;
@@ -633,10 +719,16 @@ mod async_impl {
             Some((prev, left))
         }
         fn wait(&self) -> Result<(), String> {
-            bo(SelfTy::wait(self)).map_err(|e| e.to_string())
+            match bo_c(SelfTy::wait(self)) {
+                Some(r) => r.map_err(|e| e.to_string()),
+                None => Err(CANCELLED.into()),
+            }
         }
         fn clear(&self) -> Result<(), String> {
-            bo(SelfTy::clear(self)).map_err(|e| e.to_string())
+            match bo_c(SelfTy::clear(self)) {
+                Some(r) => r.map_err(|e| e.to_string()),
+                None => Err(CANCELLED.into()),
+            }
         }
         fn close(&self) -> Result<(), String> {
             bo(SelfTy::close(self)).map_err(|e| e.to_string())
@@ -914,10 +1006,53 @@ pub fn build(cfg: &Cfg) -> Result<Box<dyn Api>, String> {
             }
         }};
     }
-    match cfg.flavor {
+    IS_ASYNC.store(cfg.flavor != Flavor::Sync, Ordering::SeqCst);
+    DECOY_N.store(0, Ordering::SeqCst);
+    *DECOY.lock().unwrap_or_else(|e| e.into_inner()) = None;
+    let main: Result<Box<dyn Api>, String> = match cfg.flavor {
         Flavor::Sync => recipe!(CacheBuilder, Cache).finalize().map(|c| Box::new(c) as Box<dyn Api>).map_err(|e| format!("{:?}", e)),
         Flavor::Async | Flavor::AsyncLocal => recipe!(AsyncCacheBuilder, AsyncCache).finalize(async_spawner).map(|c| Box::new(c) as Box<dyn Api>).map_err(|e| format!("{:?}", e)),
+    };
+    if cfg.decoy && main.is_ok() {
+        build_decoy(cfg);
     }
+    main
+}
+
+/// A second, independent cache of the same flavour in the same process (same executor thread in
+/// the single-task flavour): roomy, same cleanup interval, two TTL entries of its own.
+fn build_decoy(cfg: &Cfg) {
+    let ms = Duration::from_millis(cfg.cleanup_ms);
+    let d: Option<Box<dyn Api>> = match cfg.flavor {
+        Flavor::Sync => CacheBuilder::<u64, Val, HKb>::new_with_key_builder(1000, 1_000_000, HKb(KeyMode::Transparent))
+            .set_buffer_size(64)
+            .set_cleanup_duration(ms)
+            .set_coster(HCoster(false))
+            .set_update_validator(HValidator(Validator::Always))
+            .set_callback(HCallback::Silent)
+            .set_hasher(SeedState(cfg.hasher_seed ^ 0xdec0))
+            .finalize()
+            .ok()
+            .map(|c| Box::new(c) as Box<dyn Api>),
+        _ => AsyncCacheBuilder::<u64, Val, HKb>::new_with_key_builder(1000, 1_000_000, HKb(KeyMode::Transparent))
+            .set_buffer_size(64)
+            .set_cleanup_duration(ms)
+            .set_coster(HCoster(false))
+            .set_update_validator(HValidator(Validator::Always))
+            .set_callback(HCallback::Silent)
+            .set_hasher(SeedState(cfg.hasher_seed ^ 0xdec0))
+            .finalize(async_spawner)
+            .ok()
+            .map(|c| Box::new(c) as Box<dyn Api>),
+    };
+    *DECOY.lock().unwrap_or_else(|e| e.into_inner()) = d;
+    with_decoy(|d| {
+        for (i, ttl) in [700u64, 1900].iter().enumerate() {
+            let k = DECOY_BASE + i as u64;
+            let _ = d.insert(k, Val { id: k, key: k, size: 1 }, 1, Duration::from_millis(*ttl));
+        }
+        let _ = d.wait();
+    });
 }
 
 // ------------------------------------------------------------------------------------------
@@ -1061,6 +1196,10 @@ pub fn do_op(api: &dyn Api, client: usize, idx: usize, op: &Op) {
             rt::stall_self_later(*ns, *skip);
             Res::Unit
         }
+        Op::CancelNext { after } => {
+            CANCEL_AFTER.with(|c| c.set(Some(*after)));
+            Res::Unit
+        }
         Op::WhileHolding { what, v } => {
             let a = api.clone_box();
             let (what, v) = (*what, *v);
@@ -1078,9 +1217,14 @@ pub fn do_op(api: &dyn Api, client: usize, idx: usize, op: &Op) {
         Op::Barrier | Op::DropHandle => Res::Unit,
     }));
     let res = match r {
+        Ok(Res::Err(e)) if e == CANCELLED => Res::Cancelled,
         Ok(r) => r,
         Err(p) => Res::Panic(rt::panic_msg(&p)),
     };
+    if !matches!(op, Op::CancelNext { .. }) {
+        // a cancellation request concerns the very next operation only
+        CANCEL_AFTER.with(|c| c.set(None));
+    }
     if matches!(op, Op::Wait) && matches!(res, Res::Unit) {
         // the barrier oracle (C10) needs the state at the very instant wait() returns
         let ctx = SNAP_CTX.lock().unwrap_or_else(|e| e.into_inner()).clone();
